@@ -288,6 +288,8 @@ type runner struct {
 	uid   string
 	state string // "" ok | reason why the message cannot be judged
 	full  map[string][]byte
+	// expected BODY[] of every message appended in the current session whose baseline was accepted, by UID
+	stored map[string][]byte
 }
 
 func (r *runner) viol(cs Case, clause, sig, msg string) {
@@ -314,6 +316,7 @@ func (r *runner) prepare(d MsgDesc, cs Case) error {
 		if r.s, err = newSession(); err != nil {
 			return err
 		}
+		r.stored = nil
 	}
 	r.key, r.m, r.j, r.state, r.full = d.Key(), m, nil, "", map[string][]byte{}
 	c := r.s.c
@@ -381,7 +384,72 @@ func (r *runner) prepare(d MsgDesc, cs Case) error {
 	j.buildRegions()
 	r.j = j
 	r.full[""] = j.S
+	if r.stored == nil {
+		r.stored = map[string][]byte{}
+	}
+	r.stored[r.uid] = j.S
 	return nil
+}
+
+// fetchAll fetches all messages of the session with ONE command (the server works on several messages at once then —
+// it fetches in parallel by default — and may answer in any order): every row must carry the bytes and the size of
+// the message with that UID.
+func (r *runner) fetchAll(cs Case) {
+	if r.s == nil || len(r.stored) < 2 {
+		return
+	}
+	res := r.s.c.Cmd("UID FETCH 1:* (RFC822.SIZE BODY.PEEK[])")
+	r.res.Counters["fetches"]++
+	if res.Err != nil || res.Status != "OK" {
+		r.viol(cs, "MULTI", "all-messages/"+res.Status, fmt.Sprintf("UID FETCH 1:* (RFC822.SIZE BODY.PEEK[]) over %d messages: %v %s", len(r.stored), res.Err, clip(res.Tagged.Text, 120)))
+		return
+	}
+	seen := map[string]bool{}
+	for _, u := range res.Untagged {
+		if !strings.Contains(u.Text, " FETCH ") {
+			continue
+		}
+		_, its, err := ParseFetch(u)
+		if err != nil {
+			r.viol(cs, "MULTI", "all-messages/framing", fmt.Sprintf("UID FETCH 1:* row: %v; %s", err, clip(u.Text, 160)))
+			return
+		}
+		uid, body, size := "", (*Item)(nil), ""
+		for i := range its {
+			switch strings.ToUpper(its[i].Name) {
+			case "UID":
+				uid = its[i].Atom
+			case "BODY[]":
+				body = &its[i]
+			case "RFC822.SIZE":
+				size = its[i].Atom
+			}
+		}
+		want, ok := r.stored[uid]
+		if !ok {
+			continue // a message whose baseline was not accepted
+		}
+		if seen[uid] {
+			r.viol(cs, "MULTI", "all-messages/duplicate-row", "UID "+uid+" answered twice by UID FETCH 1:*")
+		}
+		seen[uid] = true
+		if body == nil || !bytes.Equal(body.Data, want) {
+			got := []byte(nil)
+			if body != nil {
+				got = body.Data
+			}
+			r.viol(cs, "MULTI", "all-messages/other-bytes", fmt.Sprintf("UID FETCH 1:* (… BODY.PEEK[]): the row of UID %s carries %d bytes (%s), the message has %d (first difference at %d)", uid, len(got), clipB(got, 60), len(want), firstDiff(got, want)))
+		}
+		if size != fmt.Sprint(len(want)) {
+			r.viol(cs, "MULTI", "all-messages/size", fmt.Sprintf("UID FETCH 1:*: RFC822.SIZE %s for UID %s whose BODY[] has %d bytes", size, uid, len(want)))
+		}
+	}
+	for uid := range r.stored {
+		if !seen[uid] {
+			r.viol(cs, "MULTI", "all-messages/missing-row", "UID FETCH 1:* over "+fmt.Sprint(len(r.stored))+" messages has no row for UID "+uid)
+		}
+	}
+	r.outcome(fmt.Sprintf("multi/%d", len(r.stored)))
 }
 
 func firstDiff(a, b []byte) int {
@@ -980,6 +1048,11 @@ func Call(raw json.RawMessage) (any, error) {
 		if len(r.res.Samples) < 2 && r.m != nil {
 			r.res.Samples = append(r.res.Samples, map[string]any{"case": cs, "fetch": attrOf(cs), "appended_bytes": len(r.m.A), "violated": len(r.res.Viol) > before})
 		}
+	}
+	if len(chunk.Cases) > 0 {
+		var cs Case
+		_ = json.Unmarshal(chunk.Cases[len(chunk.Cases)-1], &cs)
+		r.fetchAll(cs)
 	}
 	for k := range r.outcomes {
 		r.res.Outcomes = append(r.res.Outcomes, k)
